@@ -81,6 +81,9 @@ class AttackWorld(c09.World):
         if phase in ('after-greeting', 'awaiting-inventory'):
             self.X.hello(nonce=999, agent=b'vf \xff\xc0 attacker')
             self.node.tick()
+        if phase == 'node-greeted-first':
+            # the node's own greeting has gone out (first manager step after the connection exists); the peer has not greeted
+            self.node.tick()
         if phase == 'awaiting-inventory':
             xpeer = self.node.peer_for(self.X.node_sock)
             self.net.rnd.chooser = lambda seq: [p for p in seq if p is xpeer][0] if any(p is xpeer for p in seq) else seq[0]
@@ -92,6 +95,7 @@ class AttackWorld(c09.World):
         self.V.received()
         self.O.received()
         self.vpeer = self.node.peer_for(self.V.node_sock)
+        self.xpeer = self.node.peer_for(self.X.node_sock)
         self.before = self.observe()
 
     def observe(self):
@@ -163,6 +167,12 @@ def judge(w, B1, T1, close_after):
             break
     if not a['o_alive']:
         bad.append(('victim-affected', "another greeted connection was dropped"))
+    # a peer that never greeted is out of protocol order with whatever it sends: nothing of it may take effect
+    xp = getattr(w, 'xpeer', None)
+    if xp is not None and not xp.hello_received and (a['state'] != b['state'] or a['pool'] != b['pool'] or a['rows'] != b['rows']):
+        bad.append(('ungreeted-peer-changed-node', "data from a connection that never sent a greeting took effect (chain state %d -> %d "
+                    "blocks, pool %d -> %d, store rows %d -> %d)" % (len(b['state']), len(a['state']), len(b['pool']), len(a['pool']),
+                                                                     len(b['rows']), len(a['rows']))))
     # chain state: only well-formed, fully valid blocks may have entered
     new_blocks = a['state'] - b['state']
     H = w.fc.head()
@@ -613,7 +623,8 @@ def _worker(arg):
 def run(ctx):
     c09.setup_worker()
     jobs = []
-    plan = [('before-greeting', False)] if ctx.quick else [('before-greeting', False), ('after-greeting', True), ('awaiting-inventory', False)]
+    plan = [('before-greeting', False)] if ctx.quick else [('before-greeting', False), ('after-greeting', True), ('awaiting-inventory', False),
+                                                           ('node-greeted-first', False)]
     nm = {}
     for phase, same in plan:
         items = list(mutant_families(ctx, phase))
@@ -624,7 +635,7 @@ def run(ctx):
         jobs += [(phase, same, items[i::n]) for i in range(n) if items[i::n]]
     if ctx.quick:
         # structural families also in the other phases / same host
-        for phase, same in (('after-greeting', True), ('awaiting-inventory', False)):
+        for phase, same in (('after-greeting', True), ('awaiting-inventory', False), ('node-greeted-first', False)):
             items = [m for m in mutant_families(ctx, phase) if m[0] not in ('subst', 'truncate+close', 'msgtype', 'datatype', 'random')]
             nm[phase] = len(items)
             n = ctx.ncpu
